@@ -38,8 +38,14 @@ EXPLANATION = (
     'R5 (chain order) in backends.py, ninjabackend.py and build.py no isinstance arm on a value is reachable only through the '
     'false edge of an earlier isinstance test of a repository base class of all its classes (the subclass arm could never run). '
     'R4 also reports a plain assignment whose value no statement reads (computed after the last use of the name). '
-    'R6 (must-pass-through) in seven collector loops over dependency sources every iteration passes an accumulating statement: no '
-    'break/continue/return drops an element (an unfiltered comprehension or a helper that does the looping is followed). '
+    'R6 (must-pass-through) in eight collector loops over dependency sources (incl. the outputs of preprocess(depends:) targets in '
+    'CompileTarget.get_generated_headers) every iteration passes an accumulating statement: no '
+    'break/continue/return drops an element (an unfiltered comprehension or a helper that does the looping is followed; a comprehension '
+    'with an `if` filter is the loop with `continue` and gets the same verdict; nested generators are read with the outer variable replaced by its iterable). '
+    'R1 normal forms (round 13): an element made by a factory method whose every return is a NinjaBuildElement(...) display is the constructor '
+    'call with the factory parameters bound; `p.m()` on a parameter annotated with a repository class adds what the one definition of m in that '
+    'module returns (self re-rooted at p); stores into self.<attr> made by helper methods of the same object count for STORE rows (arguments '
+    'bound); a capture-free `match` (class patterns without sub-patterns, `A() | B()`, literals, `_`, guards) is read as the if/elif chain. '
     'R7 (sibling agreement) a built File made from a target output name is placed in that target\'s get_builddir(), never in its source '
     'sub-directory (.subdir/get_subdir()), which differs under build_subdir: and for build-machine subprojects. '
     'R7 second clause: no registered build element names an input or dependency by the bare File.fname (the path without its directory). '
@@ -70,7 +76,9 @@ EXPLANATION = (
     'number of unity files generate_unity_files() creates - a value-level ceiling division); results that differ between the first and later calls of a lazily initialising function (handle_cpp_import_std returning '
     'the std-module dependency only when it creates the statement); attribute stores on a proxy object instead of the underlying target '
     '(interpreter/mesonmain.py, needs receiver types); path-sensitive loss (a dependency list reset on one branch but still used on the other, e.g. modules/i18n.py '
-    'XgettextProgram.extract - the may-flow merges the branches); loops that legitimately mix searching and collecting; --layout=flat '
+    'XgettextProgram.extract - the may-flow merges the branches; likewise depend_files / extra_depends of generate_custom_target added only in the '
+    'else branch of `if target.build_always_stale` (seed C05-r7-2): the source still reaches the edge on some path, and requiring it on every path '
+    'would fire on a harmless guard such as `if target.extra_depends:`); loops that legitimately mix searching and collecting; --layout=flat '
     '(declared unsupported by meson); that the listed sources suffice for every project; conditions under which a branch runs (the relation is '
     'path-insensitive); the three A.7 rows that are not necessary for C05 (PHONY for build_always_stale - staleness, not order; '
     'guessed external libraries - files outside the build; process_target_dependencies - every target is generated by the main loop anyway).')
